@@ -178,7 +178,9 @@ def lean_build(prop, cfg):
 def harness_build():
     """build the harness against /repo's working tree with hooks on; fall back to no unit hooks"""
     with Lock('cargo'):
-        lock_src = os.path.join(REPO, 'Cargo.lock')
+        shim = os.path.join(CACHE, 'fault.so')
+        if not os.path.exists(shim):
+            sh(['cc', '-shared', '-fPIC', '-O1', '-o', shim, os.path.join(HARNESS, 'shim', 'fault.c'), '-ldl'])
         rc, out, dt = sh(['cargo', 'build', '--offline'], cwd=HARNESS, timeout=3600)
         if rc == 0:
             return dict(ok=True, unit_hooks=True, build_s=dt, log=out[-2000:])
